@@ -72,6 +72,9 @@ def risk_spec(draw, hedge=False):
         "history": hist,
     }
     kids = [{"sec": t, "mult": mult[t]} for t in tickers]
+    if hedge:
+        # hedge instruments may be declared lazily (created on their first trade) and still carry a multiplier
+        kids = [dict(k, lazy=True) if (k["sec"] in tickers[n_assets:] and draw(st.booleans())) else k for k in kids]
     if nested:
         for m in measures:
             for t in unit[m]:
